@@ -57,7 +57,7 @@ class State:
         s.exc_stack = list(self.exc_stack)
         s.trace = list(self.trace)
         s.bounded = self.bounded
-        s.writes = self.writes
+        s.writes = set(self.writes) if self.writes is not None else None   # per path: only writes on paths that reach the loop head matter
         return s
 
     def assume(self, f):
